@@ -502,7 +502,15 @@ def execute(sc):
     for c in host.crashes:
         bad("addon_crash", {"exc": c[0], "where": c[1]}, f"addon raised: {c[2]}")
     nontrivial = state["served"] > 0 and (state["reindexed_nonempty"] or state["collide"] or state["unmatched"])
-    return {"violations": viol, "digest": digest(log), "nontrivial": bool(nontrivial), "faults": {}, "probes": probes,
+    # perturbations that landed in in-flight state: a re-index while unserved recordings were loaded, a replaced /
+    # stopped recording set in mid-history
+    faults = {}
+    if probes.get("reindex_nonempty"):
+        faults["reindex_with_unserved_recordings"] = probes["reindex_nonempty"]
+    mid = sum(1 for e in log[1:] if e[0] in ("reload", "stop", "add"))
+    if mid:
+        faults["recording_set_changed_midway"] = mid
+    return {"violations": viol, "digest": digest(log), "nontrivial": bool(nontrivial), "faults": faults, "probes": probes,
             "sim_s": sim_s, "states": set()}
 
 
